@@ -54,6 +54,9 @@ func (c Command) Byte() byte {
 
 // ValidateType will check if the supplied string starts with the given command type and return an error if its not.
 func (c Command) ValidateType(data []byte) error {
+	if len(data) == 0 {
+		return errors.Errorf("Invalid command type. Expected %v, got an empty message", c)
+	}
 	if !c.IsOfType(data) {
 		return errors.Errorf("Invalid command type. Expected %v, got, %v", c, data[0])
 	}
@@ -62,7 +65,7 @@ func (c Command) ValidateType(data []byte) error {
 
 // IsOfType will check if the supplied string starts with the given command type
 func (c Command) IsOfType(data []byte) bool {
-	if data == nil || len(data) < 0 {
+	if data == nil || len(data) < 1 {
 		return false
 	}
 	if data[0] == c.Code {
@@ -104,6 +107,11 @@ func DecodeRequestHeader(c Command, req []byte) (remaining []byte, userId uint16
 	err = c.ValidateType(req)
 	if err != nil {
 		return req, 0, err
+	}
+
+	// command type + 3 cache-busting characters (+ 2 characters of user id)
+	if len(req) < 4 || (c.NeedsUserId && len(req) < 6) {
+		return req, 0, errors.Errorf("Request too short: %q", req)
 	}
 
 	req = req[4:] // Remove command type + cache
